@@ -92,3 +92,23 @@ Example c04_drift_example :
                 (map (fun x => Qred (x - r_gain st)) (r_vals st), Qle_bool (Qabs (r_gain st - (3#2))) (9#1)))
       [1; 2; 7; 30]%nat = repeat ([-1; 0], true) 4.
 Proof. vm_compute. reflexivity. Qed.
+
+(* ---------- ties by translation (re-stated here so that THIS property's obligations break when the source they speak about
+   changes shape): gen/GenKernel.v and gen/GenLoops.v are regenerated from $VERIF_REPO/src on every run *)
+From MdpaxV Require Import Model.Skeleton Model.Kernel Model.KernelOps Proofs.SkeletonP Proofs.GenKernelP.
+From MdpaxGen Require Import GenLoops GenKernel.
+
+(* the one-state update GENERATED from ValueIteration._calculate_updated_value (expectation over the event space with the
+   problem's own probabilities, maximum over the action space) is the Bellman optimality backup the theorems above use *)
+Theorem c04_generated_update_is_bellman_backup : forall (M : mdp) st g V, (0 < nA M)%nat ->
+  gen_calculate_updated_value (prims_of M) st (seq 0 (nA M)) (seq 0 (nE M)) g V = backup M g V st.
+Proof. exact gen_updated_value_is_backup. Qed.
+Print Assumptions c04_generated_update_is_bellman_backup.
+
+(* each solve() whose result this property speaks about = the interpretation of the skeleton translated from ITS source
+   (one step per pass, the stopping test, the periodic and the final save, the policy extraction) *)
+Theorem c04_rvi_solve_follows_source : forall eps SW POL ckpt freq k st,
+  rvi_solve eps SW POL ckpt freq k st =
+  run_skel rvist rvi_incr (rvi_sweep_step eps SW) r_iter (rvi_finish POL true) (fun s => s) ckpt freq rvi_skel k st.
+Proof. exact rvi_solve_is_skeleton. Qed.
+Print Assumptions c04_rvi_solve_follows_source.
